@@ -27,17 +27,72 @@ def gen_case(rng):
             hi = int(math.ceil(hi))
     else:
         lo = rng.uniform(-1e6, 1e6) * 10 ** rng.randint(-9, 3); hi = lo + abs(rng.uniform(0, 1e3)) * 10 ** rng.randint(-9, 2)
-    tol = rng.choice([0, 0.0, 1e-9, 1e-9, 0.5, 1, 0.1, rng.uniform(0, 2)])
+    tol = rng.choice([0, 0.0, 0, 1e-9, 1e-9, 0.5, 1, 0.1, rng.uniform(0, 2), 2.0 ** -rng.randint(20, 60)])
     cands = [lo, hi, (lo + hi) / 2 if lo != hi else lo]
     for b in (lo, hi, hi + tol, lo - tol):
         cands += [b] + ulp_neighbours(b) + [b + rng.choice([-1, 1]) * rng.uniform(0, 2 * (tol or 1))]
     cands += [rng.uniform(lo - 5, hi + 5), rng.randint(-200, 200)]
+    for b, sgn in ((hi, 1), (lo, -1)):   # outside the range by a tiny amount (far below any default tolerance)
+        cands += [b + sgn * 2.0 ** -rng.randint(25, 50), b + sgn * abs(b) * 2.0 ** -rng.randint(40, 52)]
     v = rng.choice(cands)
     return v, lo, hi, tol
 
 
 def inside(v, lo, hi):
     return Fraction(lo) <= Fraction(v) <= Fraction(hi)
+
+
+def run_sequences(ctx, pu, pts):
+    """state carried between calls: the SAME bounds / point list objects are reused and mutated in place
+    between calls (a cache keyed on object identity or on too few arguments goes stale), tolerance varied
+    and repeated; every call is judged."""
+    if not pts:
+        return
+    bounds = [[0, 0], [1, 1]]
+    point = [0, 0]
+    last_t = None
+    for i, (x, y, x0, y0, x1, y1, t) in enumerate(pts):
+        mode = i % 4
+        if mode == 0:      # fresh objects
+            bounds = [[x0, y0], [x1, y1]]
+            point = [x, y]
+        elif mode == 1:    # mutate one corner in place, keep the other, same tolerance as before if possible
+            bounds[1][0], bounds[1][1] = x1, y1
+            x0, y0 = bounds[0]
+            if not (Fraction(x0) <= Fraction(x1) and Fraction(y0) <= Fraction(y1)):
+                bounds[0][0], bounds[0][1] = x0, y0 = min(x0, x1, key=Fraction), min(y0, y1, key=Fraction)
+            point[0], point[1] = x, y
+            if last_t is not None:
+                t = last_t
+        elif mode == 2:    # same bounds object, new point object, new tolerance
+            x0, y0 = bounds[0]
+            x1, y1 = bounds[1]
+            point = [x, y]
+        else:              # everything mutated in place
+            bounds[0][0], bounds[0][1], bounds[1][0], bounds[1][1] = x0, y0, x1, y1
+            point[0], point[1] = x, y
+        last_t = t
+        (bx0, by0), (bx1, by1) = bounds
+        px, py = point
+        inp = {'fn': 'point_in_bounds(sequence, same objects mutated in place)', 'step': i,
+               'args': [pyval(z) for z in (px, py, bx0, by0, bx1, by1, t)]}
+        try:
+            r = pu.point_in_bounds(point, bounds, t)
+            fx = pu.checkLimitsTol(px, bx0, bx1, t)[1]
+            fy = pu.checkLimitsTol(py, by0, by1, t)[1]
+            c1 = pu.checkLimits(px, bx0, bx1)
+            c2 = pu.constrainLimits(px, bx0, bx1)
+        except Exception as ex:
+            ctx.count(('seq', i)); ctx.violate(f'sequence call raised {type(ex).__name__}', inp, repr(ex), 'a value'); continue
+        ctx.count(('seq', i, tuple(inp['args'])), 'sequence', True)
+        wantb = (not ((px > bx1 + t) or (px < bx0 - t))) and (not ((py > by1 + t) or (py < by0 - t)))
+        if r != wantb:
+            ctx.violate('point_in_bounds: not "within tolerance of the bounds" (call sequence)', inp, str(r), str(wantb))
+        if r != ((not fx) and (not fy)):
+            ctx.violate('point_in_bounds disagrees with checkLimitsTol per coordinate (call sequence)', inp, str(r), str((not fx) and (not fy)))
+        want = px if inside(px, bx0, bx1) else (bx1 if Fraction(px) > Fraction(bx1) else bx0)
+        if Fraction(c1[0]) != Fraction(want) or c1[1] != (not inside(px, bx0, bx1)) or Fraction(c2) != Fraction(want):
+            ctx.violate('checkLimits/constrainLimits wrong in a call sequence', inp, pyval((c1, c2)), pyval(want))
 
 
 def run(ctx):
@@ -66,6 +121,7 @@ def run(ctx):
         lines.append('gen point_in_bounds 15 ' + ' '.join(pyval(z) for z in (x, y, x0, y0, x1, y1, t)))
         meta.append(('point_in_bounds', (x, y, x0, y0, x1, y1, t)))
     outs = ctx.driver.batch(lines) if ctx.driver else [None] * len(lines)
+    run_sequences(ctx, pu, pts)
     for (fn, args), out in zip(meta, outs):
         try:
             if fn == 'checkLimits':
